@@ -161,3 +161,63 @@ package thrift_reflection
 //@ func (td *TypeDescriptor) IsMap() bool
 //@   trusted
 //@   pure
+
+// ---- Go type registry (C15): which generated Go type goes with which descriptor ----
+// The generated list of Go types is laid out structs, unions, exceptions, enums, typedefs; descriptor number i of each
+// kind is registered with the entry at its offset + i.
+//@ func getReflect(in interface{}) reflect.Type
+//@   trusted
+//@   pure
+//@ func (gd *GlobalDescriptor) registerStructGoType(s *StructDescriptor, t reflect.Type)
+//@   trusted
+//@ func (gd *GlobalDescriptor) registerEnumGoType(e *EnumDescriptor, t reflect.Type)
+//@   trusted
+//@ func (gd *GlobalDescriptor) registerTypedefGoType(td *TypedefDescriptor, t reflect.Type)
+//@   trusted
+
+//@ pure func nSUE(fd *FileDescriptor) int { return len(fd.Structs) + len(fd.Unions) + len(fd.Exceptions) }
+//@ func (gd *GlobalDescriptor) registerGoTypes(fd *FileDescriptor, goTypes []interface{})
+//@   requires gd != nil && fd != nil && len(goTypes) == nSUE(fd) + len(fd.Enums) + len(fd.Typedefs)
+//@   loop 1 invariant len($xs) == nSUE(fd) && len(structList) == nSUE(fd)
+//@   loop 1 invariant forall k int :: 0 <= k && k < len(fd.Structs) ==> $xs[k] == fd.Structs[k]
+//@   loop 1 invariant forall k int :: 0 <= k && k < len(fd.Unions) ==> $xs[len(fd.Structs) + k] == fd.Unions[k]
+//@   loop 1 invariant forall k int :: 0 <= k && k < len(fd.Exceptions) ==> $xs[len(fd.Structs) + len(fd.Unions) + k] == fd.Exceptions[k]
+//@   loop 1 step callarg("getReflect", 0) == goTypes[pre($i)] && callarg("gd.registerStructGoType", 0) == $xs[pre($i)] && callarg("gd.registerStructGoType", 1) == callret("getReflect", 0)
+//@   loop 2 invariant len(structList) == nSUE(fd)
+//@   loop 3 invariant len(structList) == nSUE(fd)
+//@   loop 2 step callarg("getReflect", 0) == goTypes[nSUE(fd) + pre($i)] && callarg("gd.registerEnumGoType", 0) == fd.Enums[pre($i)] && callarg("gd.registerEnumGoType", 1) == callret("getReflect", 0)
+//@   loop 3 step callarg("getReflect", 0) == goTypes[nSUE(fd) + len(fd.Enums) + pre($i)] && callarg("gd.registerTypedefGoType", 0) == fd.Typedefs[pre($i)] && callarg("gd.registerTypedefGoType", 1) == callret("getReflect", 0)
+
+// Base-service chain (C15 "base service"): GetAllMethods walks the chain with GetParent of the service it is AT (the
+// base name is resolved in the file that declares that service), and appends that service's own methods in order.
+//@ func (s *ServiceDescriptor) GetParent() *ServiceDescriptor
+//@   trusted
+//@   pure
+//@ func (s *ServiceDescriptor) GetAllMethods() []*MethodDescriptor
+//@   requires s != nil
+//@   loop 1 step callrecv("svc.GetParent") == pre(svc) && svc == callret("svc.GetParent", 0)
+//@   loop 1 step len(allMethods) == pre(len(allMethods)) + len(pre(svc).Methods)
+//@   loop 1 step forall k int :: 0 <= k && k < len(pre(svc).Methods) ==> allMethods[pre(len(allMethods)) + k] == pre(svc).Methods[k]
+//@   loop 1 step forall k int :: 0 <= k && k < pre(len(allMethods)) ==> allMethods[k] == pre(allMethods)[k]
+
+// BuildFileDescriptor (the init() of every generated *-reflection.go): the Go types of THIS package are registered for,
+// and the caller receives, the descriptor decoded from its own bytes -- not whatever the registry holds under the same
+// path. The agreement between builder.GoTypes and the decoded file (one Go type per struct/union/exception/enum/typedef,
+// in that order) is the generated program's obligation and is a precondition here.
+//@ func MustUnmarshal(bytes []byte) *FileDescriptor
+//@   trusted
+//@   pure
+//@   maypanic
+//@   ensures result != nil
+//@ func (gd *GlobalDescriptor) checkDuplicateAndRegister(f *FileDescriptor, currentGoPkgPath string)
+//@   trusted
+//@   maypanic
+//@   modifies gd.globalFD, f.Extra
+//@ func BuildFileDescriptor(builder *FileDescriptorBuilder) *FileDescriptor
+//@   requires builder != nil && defaultGlobalDescriptor != nil
+//@   requires len(builder.GoTypes) == nSUE(MustUnmarshal(builder.Bytes)) + len(MustUnmarshal(builder.Bytes).Enums) + len(MustUnmarshal(builder.Bytes).Typedefs)
+//@   maypanic
+//@   modifies defaultGlobalDescriptor.globalFD, MustUnmarshal(builder.Bytes).Extra
+//@   ensures result == callret("MustUnmarshal", 0) && callarg("MustUnmarshal", 0) == old(builder.Bytes)
+//@   ensures callarg("defaultGlobalDescriptor.checkDuplicateAndRegister", 0) == result
+//@   ensures callarg("defaultGlobalDescriptor.registerGoTypes", 0) == result && callarg("defaultGlobalDescriptor.registerGoTypes", 1) == old(builder.GoTypes)
